@@ -58,8 +58,14 @@ func instreamFineSediment(upstreamMass, lateralMass, reachLocalMass, reachVolume
 	loadDownstream, loadToFloodplain, loadToChannelDeposition, floodplainDepositionFraction, channelDepositionFraction data.ND1Float64) (float64, float64) {
 
 	if bankFullFlow <= 1e-8 {
+		// Lateral and reach-local supplies both enter the reach
+		nSteps := lateralMass.Len1()
+		lateralAndLocalMass := data.NewArray1DFloat64(nSteps)
+		for i := 0; i < nSteps; i++ {
+			lateralAndLocalMass.Set1(i, lateralMass.Get1(i)+reachLocalMass.Get1(i))
+		}
 		totalStoredMass = LumpedConstituentTransport(
-			upstreamMass, lateralMass, outflow, reachVolume,
+			upstreamMass, lateralAndLocalMass, outflow, reachVolume,
 			totalStoredMass,
 			0, 0.0, durationInSeconds,
 			loadDownstream,nil)
